@@ -8,6 +8,7 @@ import (
 	"os"
 	"os/exec"
 	"strings"
+	"sync/atomic"
 	"syscall"
 	"time"
 )
@@ -108,11 +109,24 @@ func itoa(n int) string {
 	return string(b)
 }
 
+var confirmedHangs int64
+
+// ConfirmedHangs is the number of reproducible timeouts seen so far in this process.
+func ConfirmedHangs() int { return int(atomic.LoadInt64(&confirmedHangs)) }
+
+// TooManyHangs tells the checks to stop feeding the binary: every further case would cost the watchdog time.
+func TooManyHangs() bool { return ConfirmedHangs() >= 12 }
+
 // Run runs crd. A timeout is believed only if it reproduces three more times with a
-// longer deadline (no short wall-clock oracle).
+// longer deadline (no short wall-clock oracle); once three hangs have been confirmed that
+// way, later timeouts are taken at the first 10 s deadline.
 func Run(o Opt, args ...string) Res {
 	r := runOnce(o, args)
 	if !r.TimedOut {
+		return r
+	}
+	if ConfirmedHangs() >= 3 {
+		atomic.AddInt64(&confirmedHangs, 1)
 		return r
 	}
 	o2 := o
@@ -123,6 +137,7 @@ func Run(o Opt, args ...string) Res {
 			return r2
 		}
 	}
+	atomic.AddInt64(&confirmedHangs, 1)
 	return r
 }
 
